@@ -29,7 +29,8 @@ MANIFEST = dict(
          "setattr, miss), clear_cache, task objects under new/setattr/copy/evolve, and a result store keyed by the task "
          "checksum: for EVERY operation history (induction over the op list) every construct/run shows what a fresh "
          "process shows (C30_partial, C30_parametric_full), a returned workflow's inputs are always the requester's "
-         "(C30_no_leak, needs no parametricity), exact and superset hits are sound (C30_exact_hit_sound, "
+         "(C30_no_leak, needs no parametricity), cached workflows never alias the user's task objects (C30_no_alias, object "
+         "identities modelled and observed), exact and superset hits are sound (C30_exact_hit_sound, "
          "C30_superset_hit_sound). Partial: the full statement is refuted (C30_refuted_nonparametric, finding F30b): "
          "a constructor that branches on an input gets the graph built while that input was lazy; minor finding F30c: "
          "the type hash ignores the class name (hypothesis hash_type injective). The stale per-task "
@@ -49,8 +50,9 @@ TRUSTED = [
     "Section variables: hash_type, hash_dict, checksum (blake2b digests) with the explicit hypotheses that they are "
     "injective (no collision) in C30_partial / C30_exact_hit_sound / C30_superset_hit_sound / C30_no_leak; ctor (the "
     "user's constructor function), subst (lazy-field resolution), eval (execution of a resolved graph): arbitrary",
-    "modelled, not verified: Workflow objects are immutable values (sharing of the cached object and in-place "
-    "mutation of node states by _create_graph/prepare_states are exercised by repeated runs in the correspondence "
+    "modelled, not verified: the identity of a workflow's inputs object is modelled (C30_no_alias, tied by observing "
+    "`is` on every returned wf.inputs), but nodes and their states are values (in-place mutation of node states by "
+    "_create_graph/prepare_states and of node tasks is exercised by repeated construct/plot/run in the correspondence "
     "only); node-level result caching; the 'constructor' field is constant per class; nested workflows are not in "
     "the Coq model (their histories are compared with a fresh process only)",
     "the fresh-process oracle is a process forked from a zygote that imported pydra and the definitions and never "
@@ -236,6 +238,7 @@ def gen_history(rng, defs, nops):
     The generator keeps operations valid: a field that is unset (NOTHING) or lazy-valued is always in `lazy`
     when constructing, and run is only used on fully specified objects."""
     ops, objs = [], []       # objs: {"def": i, "vals": {field: value|"LAZY"|None}}
+    snaps = []               # (def, vals) as they were when an object was used for a construction / run
 
     def unset(o):
         return [f for f, v in o["vals"].items() if v is None]
@@ -249,6 +252,15 @@ def gen_history(rng, defs, nops):
             di = d0 if rng.random() < 0.75 else rng.randrange(len(defs))
             d = defs[di]
             given, vals = {}, {}
+            old = [v for dd, v in snaps if dd == di]
+            if old and rng.random() < 0.5:
+                # a new task with the values an earlier task had when it was constructed (that task may have been
+                # changed since: the cached workflow must still show the old values)
+                vals = dict(rng.choice(old))
+                given = {f: v for f, v in vals.items() if v is not None}
+                ops.append(["new", di, given])
+                objs.append({"def": di, "vals": vals})
+                continue
             base = objs[-1]["vals"] if objs and objs[-1]["def"] == di and rng.random() < 0.6 else None
             for f in d["fields"]:
                 r = rng.random()
@@ -295,6 +307,7 @@ def gen_history(rng, defs, nops):
             else:
                 lazy = sorted(set(unset(o)) | set(rng.sample(names, rng.choice([0, 1, 1, 2, len(names)][:len(names) + 1]))))
             ops.append(["wconstruct", oi, lazy, rng.random() < 0.12])
+            snaps.append((o["def"], dict(o["vals"])))
         elif unset(o):
             f = rng.choice(unset(o))
             ft = [x for x in d["fields"] if x["name"] == f][0]
@@ -304,6 +317,7 @@ def gen_history(rng, defs, nops):
         elif lazyv(o):
             if rng.random() < 0.6:
                 ops.append(["construct", oi])
+                snaps.append((o["def"], dict(o["vals"])))
             else:
                 f = rng.choice(lazyv(o))
                 ft = [x for x in d["fields"] if x["name"] == f][0]
@@ -312,8 +326,10 @@ def gen_history(rng, defs, nops):
                 o["vals"][f] = v
         elif r < 0.78:
             ops.append(["construct", oi])
+            snaps.append((o["def"], dict(o["vals"])))
         else:
             ops.append(["run", oi, rng.random() < 0.25])
+            snaps.append((o["def"], dict(o["vals"])))
     return ops
 
 
@@ -399,6 +415,13 @@ def c_obs(o):
     return "IErr"
 
 
+def c_ident(x):
+    if x is None:
+        return "None"
+    on = lambda v: "None" if v < 0 else "(Some %s)" % coqio.nat(v)   # noqa: E731
+    return "(Some (%s, %s))" % (on(x["same"]), on(x["user"]))
+
+
 EXTRA = """
 Local Open Scope string_scope.
 Inductive iobs := INone | IWf (w : cwf) | IOut (r : option val) | IErr.
@@ -433,30 +456,56 @@ Fixpoint all2 {A B} (f : A -> B -> bool) (a : list A) (b : list B) : bool :=
   | x :: a', y :: b' => f x y && all2 f a' b'
   | _, _ => false
   end.
-Definition case_t := (list cop * list iobs * list iobs)%type.   (* history, observed in the history, observed fresh *)
-Definition tie_ok (c : case_t) : bool := let '(ops, obs, _) := c in all2 obs_match (c_history ops) obs.
-Definition spec_ok (c : case_t) : bool := let '(ops, obs, _) := c in all2 spec_match (c_spec_history ops) obs.
-Definition fresh_ok (c : case_t) : bool := let '(ops, _, fr) := c in all2 spec_match (c_spec_history ops) fr.
-Definition in_domain (c : case_t) : bool := let '(ops, _, _) := c in negb (c_excluded ops).
+(* identity of the inputs object of a returned workflow, as the driver can see it: the first earlier operation
+   that returned the same object, and the user's task object it is identical to (never, says C30_no_alias) *)
+Definition idpat := option (option nat * option nat).
+Fixpoint index_of (n : nat) (l : list nat) (k : nat) : option nat :=
+  match l with [] => None | x :: r => if Nat.eqb x n then Some k else index_of n r (S k) end.
+Fixpoint first_ret (n : nat) (l : list idobs) (k : nat) : option nat :=
+  match l with
+  | [] => None
+  | o :: r => match id_ret o with
+              | Some m => if Nat.eqb m n then Some k else first_ret n r (S k)
+              | None => first_ret n r (S k)
+              end
+  end.
+Fixpoint id_patterns (done todo : list idobs) : list idpat :=
+  match todo with
+  | [] => []
+  | o :: r => (match id_ret o with
+               | Some n => Some (first_ret n done 0, index_of n (id_user o) 0)
+               | None => None
+               end) :: id_patterns (done ++ [o]) r
+  end.
+Definition onat_eqb := option_eqb Nat.eqb.
+Definition idpat_eqb (a b : idpat) : bool :=
+  option_eqb (fun x y => onat_eqb (fst x) (fst y) && onat_eqb (snd x) (snd y)) a b.
+Definition case_t := (list cop * list iobs * list iobs * list idpat)%type.   (* history, observed in the history, observed fresh, identities *)
+Definition tie_ok (c : case_t) : bool := let '(ops, obs, _, _) := c in all2 obs_match (c_history ops) obs.
+Definition spec_ok (c : case_t) : bool := let '(ops, obs, _, _) := c in all2 spec_match (c_spec_history ops) obs.
+Definition fresh_ok (c : case_t) : bool := let '(ops, _, fr, _) := c in all2 spec_match (c_spec_history ops) fr.
+Definition in_domain (c : case_t) : bool := let '(ops, _, _, _) := c in negb (c_excluded ops).
 Definition is_hit (o : cobs) : bool :=
   match o with ObsWf _ Exact | ObsWf _ Superset | ObsOut _ (Some Exact) | ObsOut _ (Some Superset) => true | _ => false end.
 Definition is_sup (o : cobs) : bool :=
   match o with ObsWf _ Superset | ObsOut _ (Some Superset) => true | _ => false end.
 (* bit mask: 1 tie fails, 2 spec fails, 4 spec != fresh process, 8 outside the domain of C30_partial,
-   16 the model takes a cache hit, 32 ... a superset-of-lazy hit.  Model and spec are evaluated once. *)
+   16 the model takes a cache hit, 32 ... a superset-of-lazy hit,
+   64 object identities of the returned inputs differ from the model's.  Model and spec are evaluated once. *)
 Definition code (c : case_t) : nat :=
-  let '(ops, obs, fr) := c in
+  let '(ops, obs, fr, idp) := c in
   let m := c_history ops in
   let s := c_spec_history ops in
   ((if all2 obs_match m obs then 0 else 1) + (if all2 spec_match s obs then 0 else 2)
    + (if all2 spec_match s fr then 0 else 4) + (if c_excluded ops then 8 else 0)
-   + (if existsb is_hit m then 16 else 0) + (if existsb is_sup m then 32 else 0))%nat.
+   + (if existsb is_hit m then 16 else 0) + (if existsb is_sup m then 32 else 0)
+   + (if list_eqb idpat_eqb (id_patterns [] (c_id_history ops)) idp then 0 else 64))%nat.
 Definition no_hit (c : case_t) : bool :=
-  let '(ops, _, _) := c in
+  let '(ops, _, _, _) := c in
   forallb (fun o => match o with ObsWf _ Exact | ObsWf _ Superset | ObsOut _ (Some Exact) | ObsOut _ (Some Superset) => false
                                 | _ => true end) (c_history ops).
 Definition no_superset (c : case_t) : bool :=
-  let '(ops, _, _) := c in
+  let '(ops, _, _, _) := c in
   forallb (fun o => match o with ObsWf _ Superset | ObsOut _ (Some Superset) => false | _ => true end) (c_history ops).
 """
 IMPORTS = ["Model.WfCache", "Spec.WfCache"]
@@ -574,7 +623,7 @@ def w_mk_value(v, ftype):
     return v
 
 
-def w_do(mod, defs, objs, op, root, counter):
+def w_do(mod, defs, objs, op, root, counter, rets=None):
     """Execute one operation on the live objects; returns the canonical observation."""
     import attrs
     from pydra.engine.workflow import Workflow
@@ -603,10 +652,12 @@ def w_do(mod, defs, objs, op, root, counter):
             else:
                 Workflow.clear_cache(getattr(mod, defs[op[1]]["name"]))
             return None
-        if k == "construct":
-            return ["wf", w_canon_wf(objs[op[1]].construct())]
-        if k == "wconstruct":
-            return ["wf", w_canon_wf(Workflow.construct(objs[op[1]], dont_cache=op[3], lazy=list(op[2])))]
+        if k in ("construct", "wconstruct"):
+            wf = objs[op[1]].construct() if k == "construct" else \
+                Workflow.construct(objs[op[1]], dont_cache=op[3], lazy=list(op[2]))
+            if rets is not None:
+                rets.append(wf)
+            return ["wf", w_canon_wf(wf)]
         if k == "plot":
             from pathlib import Path
             from pydra.utils.general import plot_workflow
@@ -640,6 +691,12 @@ def w_snapshot(obj):
         c = w_canon_val(v)
         out[k] = "LAZY" if c[0] != "const" else c[1]
     return out
+
+
+def w_detail(obj):
+    """all public attribute values of a task object, lazy-in and lazy-out fields distinguished"""
+    from pydra.utils.general import attrs_values
+    return {k: w_canon_val(v) for k, v in attrs_values(obj).items() if k != "constructor"}
 
 
 def w_fresh(mod, defs, req, root):
@@ -723,7 +780,8 @@ def worker_main(wdir, inp, outp):
             hroot = os.path.join(root, "b%dh%d" % (bi, hi))
             os.makedirs(hroot)
             objs, obs, fresh, freqs, counter = [], [], [], [], [0]
-            for op in h:
+            ident, changed, kept = [], [], []        # object identity of returned wf.inputs; caller's task modified?
+            for opi, op in enumerate(h):
                 req = None
                 if op[0] in ("construct", "wconstruct", "run") and op[1] < len(objs):
                     cname = type(objs[op[1]]).__name__
@@ -732,7 +790,17 @@ def worker_main(wdir, inp, outp):
                     if fop[0] == "run":
                         fop[2] = True
                     req = {"batch": bi, "def": names.get(cname, cname), "vals": w_snapshot(objs[op[1]]), "op": fop}
-                obs.append(w_do(mod, defs, objs, op, hroot, counter))
+                before = w_detail(objs[op[1]]) if req is not None else None
+                rets = []
+                obs.append(w_do(mod, defs, objs, op, hroot, counter, rets=rets))
+                changed.append(req is not None and w_detail(objs[op[1]]) != before)
+                if rets:
+                    inp = rets[0].inputs
+                    ident.append({"same": next((k for k, x in kept if x is inp), -1),
+                                  "user": next((u for u, x in enumerate(objs) if x is inp), -1)})
+                    kept.append((opi, inp))
+                else:
+                    ident.append(None)
                 if req is None:
                     fresh.append(None if obs[-1] is None or obs[-1][0] != "err" else ["err"])
                     freqs.append(None)
@@ -744,7 +812,7 @@ def worker_main(wdir, inp, outp):
                     memo[key] = json.loads(res_r.readline())
                 fresh.append(memo[key])
                 freqs.append(req)
-            results.append({"obs": obs, "fresh": fresh, "freqs": freqs})
+            results.append({"obs": obs, "fresh": fresh, "freqs": freqs, "ident": ident, "changed": changed})
             shutil.rmtree(hroot, ignore_errors=True)
         out.append(results)
     req_w.close()
@@ -904,6 +972,10 @@ def gen_nested_history(rng, defs, outers, nops):
                 objs.append({"cls": di, "vals": given})
             continue
         oi = rng.randrange(len(objs))
+        if ops and ops[-1][0] == "plot" and rng.random() < 0.7:
+            oi = ops[-1][1]            # what was plotted is constructed / run next (the plot must not have changed it)
+            ops.append(["construct", oi] if rng.random() < 0.5 else ["run", oi, rng.random() < 0.5])
+            continue
         o = objs[oi]
         r = rng.random()
         outer = isinstance(o["cls"], str)
@@ -1019,7 +1091,7 @@ def run(ctx):
     nb = ctx.budget(8, 64)                       # generated modules of the modelled stream
     nn = ctx.budget(3, 20)                       # ... of the nested stream
     per = 16 if not thorough else 36             # histories per module
-    box = (50 if not thorough else 420) * (3 if ctx.widen > 1 else 1)   # seconds for executing histories
+    box = (80 if not thorough else 420) * (3 if ctx.widen > 1 else 1)   # seconds for executing histories
     tmp = tempfile.mkdtemp(prefix="c30-")
     out = Outcome(rule=RULE)
     try:
@@ -1077,7 +1149,9 @@ def run(ctx):
                     continue
                 dn = {i: "(D_%s_%d)" % (b["module"], i) for i in range(len(b["defs"]))}
                 cases.append(coqio.pair(coqio.lst([c_op(op, lambda i: dn[i]) for op in h]),
-                                        coqio.lst([c_obs(o) for o in obs]), coqio.lst([c_obs(o) for o in fresh])))
+                                        coqio.lst([c_obs(o) for o in obs]), coqio.lst([c_obs(o) for o in fresh]),
+                                        coqio.lst([c_ident(x) for x in r["ident"]])))
+                m["ident"], m["changed"] = r["ident"], r["changed"]
                 meta.append(m)
         # the zygote oracle against really fresh interpreters (started now, collected after the Coq run)
         items = [(m["batch"], fq, f) for m in meta for fq, f in zip(m["freqs"], m["fresh"]) if fq is not None]
@@ -1092,6 +1166,7 @@ def run(ctx):
         coq_s = time.time() - t1
         bit = lambda k: {i for i, c in enumerate(codes) if c & k}   # noqa: E731
         tie_bad, spec_bad, fresh_bad, excluded, hits, sups = bit(1), bit(2), bit(4), bit(8), bit(16), bit(32)
+        ident_bad = bit(64)
         seen, nontrivial = set(), 0
         for i, m in enumerate(meta):
             key = json.dumps([m["defs"], m["history"]], sort_keys=True)
@@ -1135,6 +1210,26 @@ def run(ctx):
             out.failures.append(Failure(
                 case=case, observed=[norm_obs(o) for o in m["observed"]],
                 expected={"fresh_process": [norm_obs(o) for o in m["fresh"]]}, kind="spec", finding=finding, note=note))
+        # aliasing (C30_no_alias): a returned workflow's inputs object is never a task object of the user, and a
+        # construct / run never modifies the requester's task
+        dist["returned_inputs_identity_observed"] = sum(1 for m in meta for x in m["ident"] if x is not None)
+        for i, m in enumerate(meta):
+            al = [k for k, x in enumerate(m["ident"]) if x is not None and x["user"] >= 0]
+            ch = [k for k, c in enumerate(m["changed"]) if c]
+            if al or ch:
+                out.failures.append(Failure(
+                    case={"defs": m["defs"], "history": m["history"], "source": src_of(m["defs"])},
+                    observed={"ops_returning_a_workflow_whose_inputs_IS_a_user_task": al, "identities": m["ident"],
+                              "ops_that_modified_the_requesters_task": ch},
+                    expected="the inputs of a constructed workflow are a copy (C30_no_alias); construct does not write to the task",
+                    kind="spec", note="a cached/returned workflow aliases (or construct modifies) the caller's task object"))
+        for i in sorted(ident_bad)[:25]:
+            if i in twins:
+                continue
+            m = meta[i]
+            out.failures.append(Failure(case={"defs": m["defs"], "history": m["history"], "source": src_of(m["defs"])},
+                                        observed=m["ident"], expected="Model.WfCache.c_id_history of the case (--replay)",
+                                        kind="tie", note="object identities of returned workflows' inputs: model/implementation"))
         for i in sorted(tie_bad)[:25]:
             if i in excluded or i in twins:
                 continue        # outside the positive theorem's domain the implementation is compared with the spec only
@@ -1175,13 +1270,17 @@ def replay(ctx, payload):
             print("op", op)
             print("   implementation, in the history :", json.dumps(nview(o) if nested else obs_view(norm_obs(o))))
             print("   implementation, fresh process  :", json.dumps(nview(f) if nested else obs_view(norm_obs(f))))
+        print("identity of each returned workflow's inputs object (same as op / is user task):", r.get("ident"))
+        print("operations that modified the requester's task object:", [k for k, c in enumerate(r.get("changed", [])) if c])
         if nested:
             print("(nested workflows are outside the Coq model: the reference is the fresh process)")
             return 0
         defs_txt = "".join("Definition D_%d : wfdef := %s.\n" % (i, c_def(d)) for i, d in enumerate(c["defs"]))
         ops = coqio.lst([c_op(op, lambda i: "D_%d" % i) for op in c["history"]])
         vals = coqio.eval_terms(ctx.scratch, "replay", IMPORTS, ["c_history %s" % ops, "c_spec_history %s" % ops,
-                                                                "c_excluded %s" % ops], extra=EXTRA + defs_txt)
+                                                                "c_excluded %s" % ops, "id_patterns [] (c_id_history %s)" % ops],
+                                extra=EXTRA + defs_txt)
+        print("model identities:", vals[3])
         print("model   :", vals[0])
         print("spec    :", vals[1])
         print("in the excluded class of C30_partial (F30b):", vals[2])
